@@ -36,9 +36,10 @@ the model of the analysis and of the evaluator, for all expressions, rules and a
 Stating these theorems is what exposed findings F30–F34 (each a stale frozen encoding in the
 pinned tree, demonstrated on the real binary and repaired): a parameter named like a constant,
 an argument read in the rule's scope, a block argument assigning a local, symbols named `pc` or
-like a built-in function, a candidate still unresolved when the instruction was frozen.  The one
-side condition left, `ParamsOK` (no rule parameter is *named* `incbin`, `incbinstr` or
-`inchexstr`), is decidable on the rule definitions.
+like a built-in function, a candidate still unresolved when the instruction was frozen, and F35:
+the side condition the first version of these theorems carried ("no rule parameter is *named*
+`incbin`, `incbinstr` or `inchexstr`") was run on the real binary, failed there too, and was
+repaired; no side condition is left.
 -/
 namespace Casm.C08
 
@@ -176,22 +177,22 @@ theorem known_expression_is_state_independent (st : Static) (defs1 defs2 : Defs)
 
 /-- **C08 (static switch), one candidate of an instruction** -/
 theorem known_match_keeps_its_result (st : Static) (defsM defs1 defs2 : Defs) (ctx1 ctx2 : RCtx)
-    (rel : SRel defsM defs1 defs2 ctx1 ctx2) (hpar : ParamsOK defsM) (f fk : Nat) (m : IMatch) (v : Value) (c' : ECtx)
+    (rel : SRel defsM defs1 defs2 ctx1 ctx2) (f fk : Nat) (m : IMatch) (v : Value) (c' : ECtx)
     (hk : matchKnown st.decls defsM ctx1.symCtx fk m = true)
     (h : resolveMatch st defs1 f ctx1 m {} = .ok (v, c')) (hv : v ≠ .unknown) :
     resolveMatch st defs2 f ctx2 m {} = .ok (v, c') :=
-  ((resolve_static st defsM defs1 defs2 ctx1 ctx2 rel hpar f).1 fk m {} v c' hk
-    ⟨fun _ _ => rfl, fun _ _ hl _ => by cases hl⟩ h (by cases v <;> first | rfl | exact absurd rfl hv)).1
+  ((resolve_static st defsM defs1 defs2 ctx1 ctx2 rel f).1 fk m {} v c' hk
+    ⟨fun _ _ _ => rfl, fun _ _ hl _ => by cases hl⟩ h (by cases v <;> first | rfl | exact absurd rfl hv)).1
 
 /-- **C08 (static switch), the frozen instruction** -/
 theorem frozen_instruction_is_what_recomputation_chooses (st : Static) (defsM defs1 defs2 : Defs) (ctx1 ctx2 : RCtx)
-    (rel : SRel defsM defs1 defs2 ctx1 ctx2) (hpar : ParamsOK defsM) (fk : Nat) (cands : List IMatch)
+    (rel : SRel defsM defs1 defs2 ctx1 ctx2) (fk : Nat) (cands : List IMatch)
     (hk : ∀ c ∈ cands, matchKnown st.decls defsM ctx1.symCtx fk c = true)
     (hd : allDefinite st defs1 ctx1 cands = true)
     (encs : List (Nat × BI)) (rep : List String)
     (h1 : resolveEncoding st defs1 evalFuel ctx1 cands {} = .ok (some encs, rep)) (hs : encs.length = 1) :
     resolveEncoding st defs2 evalFuel ctx2 cands {} = .ok (some encs, []) :=
-  frozen_instruction_sound st defsM defs1 defs2 ctx1 ctx2 rel hpar fk cands hk hd encs rep h1 hs
+  frozen_instruction_sound st defsM defs1 defs2 ctx1 ctx2 rel fk cands hk hd encs rep h1 hs
 
 /-! non-vacuity: `ld {x} => 0x10 @ x`8`; `ld 5` is statically known, `ld lbl` is not (even if a
     statically known constant is called `x`: finding F30) -/
